@@ -250,6 +250,13 @@ func vModelAnyMessageName(x *anypb.Any) string { return "" }
 func vModelCmpDiff(x, y interface{}, opts ...interface{}) string {
 	a, ok1 := x.(*anypb.Any)
 	b, ok2 := y.(*anypb.Any)
+	if !ok1 && !ok2 {
+		// decoded request messages come from the stub table: equal iff they are the same table entry
+		if x == y {
+			return ""
+		}
+		return "differs"
+	}
 	if !ok1 || !ok2 {
 		vAssert(false, "model limit: cmp.Diff on values other than *anypb.Any")
 		return "x"
@@ -418,3 +425,57 @@ func h03e() {
 }
 
 func H03e_q() { h03e() }
+
+
+// H03f: payloads: number, order and bytes of payloads; echoed requests per payload (count and each message).
+func h03f(P int) {
+	vReqTable[0] = &conformancev1.Header{Name: "req-zero"}
+	vReqTable[1] = &conformancev1.Header{Name: "req-one"}
+	mkAny := func(k int) *anypb.Any {
+		if vNative() {
+			a, err := anypb.New(vReqTable[k])
+			if err != nil {
+				panic(err)
+			}
+			return a
+		}
+		return &anypb.Any{TypeUrl: "req", Value: []byte{byte(k)}}
+	}
+	var dataE, dataA [2]int
+	var nreqE, nreqA [2]int
+	var reqE, reqA [2][2]int
+	mk := func(tag string, n int, data *[2]int, nreq *[2]int, req *[2][2]int) []*conformancev1.ConformancePayload {
+		var out []*conformancev1.ConformancePayload
+		for i := 0; i < n; i++ {
+			data[i] = vIntAt(tag+".data", i, 2, 0, 1)
+			nreq[i] = vIntAt(tag+".nreq", i, 2, 0, 2)
+			var reqs []*anypb.Any
+			for j := 0; j < nreq[i]; j++ {
+				req[i][j] = vIntAt(tag+".req", i*2+j, 4, 0, 1)
+				reqs = append(reqs, mkAny(req[i][j]))
+			}
+			out = append(out, &conformancev1.ConformancePayload{Data: []byte{byte(data[i])}, RequestInfo: &conformancev1.ConformancePayload_RequestInfo{Requests: reqs}})
+		}
+		return out
+	}
+	nE, nA := vInt("nE", 0, P), vInt("nA", 0, P)
+	exp := mk("e", nE, &dataE, &nreqE, &reqE)
+	act := mk("a", nA, &dataA, &nreqA, &reqA)
+	errs := checkPayloads(exp, act)
+	ok := nE == nA
+	for i := 0; i < 2; i++ {
+		if i < nE && i < nA {
+			if dataE[i] != dataA[i] || nreqE[i] != nreqA[i] {
+				ok = false
+			}
+			for j := 0; j < 2; j++ {
+				if j < nreqE[i] && j < nreqA[i] && reqE[i][j] != reqA[i][j] {
+					ok = false
+				}
+			}
+		}
+	}
+	vAssert((len(errs) == 0) == ok, "payloads pass iff their number, order and bytes and every echoed request (count and content, per payload) agree")
+}
+
+func H03f_q() { h03f(2) }
